@@ -446,7 +446,8 @@ def nnx_history():
 @clause('nnx_rngs_history', strategy=nnx_history, quick=600, thorough=40000,
         quick_shards=4,
         rule='histories (3-25 steps) of stream draws (named, missing->default,'
-        ' rngs(), rngs[name]), split_rngs / restore_rngs, reseed on an '
+        ' rngs(), rngs[name]), split_rngs / restore_rngs, reseed (seed given '
+        'as an int or as a key array) on an '
         'nnx.Rngs with an optional default and 0-3 named streams (distinct '
         'seeds); model = stream -> (seed, count); every key equals fold_in('
         'key(seed), count); no key is ever returned twice; restore resumes '
@@ -460,9 +461,12 @@ def nnx_rngs_history(case, ctx):
     seeds['default'] = default
   for i, n in enumerate(named):
     seeds[n] = 100 + 7 * i + (default or 0)
+  # seeds are spelled as Python ints or as typed key arrays (same stream)
+  def spell(seed, as_key):
+    return jax.random.key(seed) if as_key else seed
   with sut('Rngs()'):
-    rngs = nnx.Rngs(default, **{n: seeds[n] for n in named}) \
-        if default is not None else nnx.Rngs(**{n: seeds[n] for n in named})
+    kw = {n: spell(seeds[n], i % 2 == 1) for i, n in enumerate(named)}
+    rngs = nnx.Rngs(default, **kw) if default is not None else nnx.Rngs(**kw)
   model = {n: [s, 0] for n, s in seeds.items()}
   seen = {}
   draws = 0
@@ -560,10 +564,12 @@ def nnx_rngs_history(case, ctx):
       if backups is not None or arg not in model:
         continue
       next_seed[0] += 1
+      as_key = next_seed[0] % 2 == 0
       with sut('reseed'):
-        nnx.reseed(rngs, **{arg: next_seed[0]})
+        nnx.reseed(rngs, **{arg: spell(next_seed[0], as_key)})
       model[arg] = [next_seed[0], 0]
       labels.add('reseed')
+      labels.add('reseed-key' if as_key else 'reseed-int')
   if backups is not None:
     with sut('restore_rngs'):
       nnx.restore_rngs(backups)
